@@ -16,8 +16,13 @@ from . import types as _types
 _uid = itertools.count()
 
 
+FRESH_LOG = []
+
+
 def fresh(prefix, sort):
-    return z3.Const('%s!%d' % (prefix, next(_uid)), sort)
+    c = z3.Const('%s!%d' % (prefix, next(_uid)), sort)
+    FRESH_LOG.append(c)
+    return c
 
 
 class VCError(Exception):
@@ -72,7 +77,6 @@ class TupleV(Val):
 
 class Cont(Val):
     """Container value living at a location."""
-    __slots__ = ('loc', 't', 'frozen')
 
     def __init__(self, loc, t, frozen=False):
         self.loc = loc
@@ -135,6 +139,14 @@ class ModuleV(Val):
 # ---------------------------------------------------------------------------------------
 # locations of containers
 
+def simp(t):
+    """light simplification (select-over-store with equal index, accessor-of-constructor)"""
+    try:
+        return z3.simplify(t, blast_select_store=False, som=False, flat=False)
+    except Exception:
+        return t
+
+
 class CellLoc:
     def __init__(self, cid):
         self.cid = cid
@@ -156,7 +168,7 @@ class FieldLoc:
         self.sort = sort
 
     def read(self, st):
-        return z3.Select(st.heap_arr(self.fid, self.sort), self.obj)
+        return simp(z3.Select(st.heap_arr(self.fid, self.sort), self.obj))
 
     def write(self, st, term):
         st.heap[self.fid] = z3.Store(st.heap_arr(self.fid, self.sort), self.obj, term)
@@ -174,7 +186,7 @@ class ItemLoc:
         self.k = key
 
     def read(self, st):
-        return z3.Select(self.pt.acc('val')(self.parent.read(st)), self.k)
+        return simp(z3.Select(self.pt.acc('val')(self.parent.read(st)), self.k))
 
     def write(self, st, term):
         p = self.parent.read(st)
@@ -196,7 +208,7 @@ class ElemLoc:
         self.i = idx
 
     def read(self, st):
-        return z3.Select(self.pt.acc('arr')(self.parent.read(st)), self.i)
+        return simp(z3.Select(self.pt.acc('arr')(self.parent.read(st)), self.i))
 
     def write(self, st, term):
         p = self.parent.read(st)
